@@ -151,6 +151,10 @@ def _work(unit):
             for executed in ((False, True) if th == 0.0 or fractional is False else (False,)):
                 msgs, nt = check_probe(sb, ref, cs, measure, alloc, th, fractional, exact_palette, executed)
                 out["evaluations"] += 1
+                if exact_palette and th > 0:
+                    tb = rebal.imbalance_table(ref, b.exchange, cs, measure, alloc, nlv)
+                    if any(abs(r_["w"]) == Fr(th) and state_is_exact(r_, nlv, b.exchange) for r_ in tb.values()):
+                        out["boundary_cases"] += 1
                 key = (universe, hist, measure, alloc, th, fractional)
                 if nt:
                     out["nontrivial"].add(hash(key))
@@ -175,6 +179,7 @@ def run(tier, **kw):
     nt = set()
     for r in pmap(_work, units):
         rep.add("evaluations", r["evaluations"])
+        rep.add("probes_with_threshold_exactly_equal_to_an_imbalance_weight", r["boundary_cases"])
         nt |= r["nontrivial"]
         for case, msg, group in r["violations"]:
             rep.violation(case, msg, group=group)
